@@ -1,4 +1,6 @@
 import Storrent.Lemmas.Handshake
+import Storrent.Lemmas.MseFlat
+import Storrent.Model.MseCrypto
 /-
 C07 — Handshakes agree and do not depend on TCP segmentation.
 
@@ -33,7 +35,10 @@ def exec (p : Prog HsResult) (c : Conn) : ResF HsResult := (run true p (startSt 
 def spec (p : Prog HsResult) (s : List Bytes) : ResF HsResult := runF p (startF s)
 
 /-- the outcome is a function of the byte stream (see `ResF.ambiguous`) -/
-def Determinate (p : Prog HsResult) (s : List Bytes) : Prop := spec p s ≠ .ambiguous
+def Determinate (p : Prog HsResult) (s : List Bytes) : Prop := (spec p s).isAmb = false
+
+instance (p : Prog HsResult) (s : List Bytes) : Decidable (Determinate p s) := by
+  unfold Determinate; infer_instance
 
 /-- every segmentation computes the flat specification -/
 theorem C07_refines_flat (p : Prog HsResult) (c : Conn) (h : Determinate p (flat c)) :
@@ -59,12 +64,12 @@ inductive NoAmb {α : Type} : Prog α → Prop where
   | unread (b) (k : Prog α) (h : NoAmb k) : NoAmb (.unread b k)
   | write (b) (k : Prog α) (h : NoAmb k) : NoAmb (.write b k)
 
-theorem runF_noAmb {α : Type} (p : Prog α) (h : NoAmb p) (st : StF) : runF p st ≠ .ambiguous := by
+theorem runF_noAmb {α : Type} (p : Prog α) (h : NoAmb p) (st : StF) : (runF p st).isAmb = false := by
   induction h generalizing st with
-  | ret a => simp [runF]
-  | fail e => simp [runF]
-  | peek rm n m k _ ih => unfold runF; split; exact ih _ _; simp
-  | take rm n m k _ ih => unfold runF; split; exact ih _ _; simp
+  | ret a => simp [runF, ResF.isAmb]
+  | fail e => simp [runF, ResF.isAmb]
+  | peek rm n m k _ ih => unfold runF; split; exact ih _ _; simp [ResF.isAmb]
+  | take rm n m k _ ih => unfold runF; split; exact ih _ _; simp [ResF.isAmb]
   | xorAll ks k _ ih => unfold runF; exact ih _
   | unread b k _ ih => unfold runF; exact ih _
   | write b k _ ih => unfold runF; exact ih _
@@ -139,8 +144,7 @@ theorem server_plain_determinate (v : Variant) (cr : MseCrypto) (o : Options) (x
     · exact Or.inl hp
     · exact absurd hlen (by simp only [startF]; omega)
     · exact Or.inr hp
-  · simp only [hlen, if_false]
-    intro h; cases h
+  · simp only [hlen, if_false, ResF.isAmb]
 
 /-- **Plain server**: for all streams on which protocol.ServerHandshake performs the plain
     handshake and all segmentations. -/
@@ -189,13 +193,6 @@ def wStream : Bytes :=
   List.replicate 96 9 ++ List.replicate 20 7 ++ List.replicate 20 0 ++ vc ++ [0, 0, 0, 2] ++ [0, 0]
     ++ [0, 68] ++ handshakeMsg wHash wId
 
-def isAmb {α : Type} : ResF α → Bool
-  | .ambiguous => true
-  | _ => false
-
-theorem ne_amb {α : Type} (r : ResF α) (h : isAmb r = false) : r ≠ .ambiguous := by
-  intro e; subst e; simp [isAmb] at h
-
 def okOf {α : Type} : Res α → Bool
   | .ok _ _ => true
   | .err _ _ => false
@@ -218,7 +215,7 @@ set_option maxRecDepth 100000 in
 theorem C07_asfound_refuted : ¬ C07_asfound_full := by
   intro h
   have := h witnessCrypto wOpts [] [] [(wHash, wId)] [[wStream]] [[wStream.take 130, wStream.drop 130]]
-    (by decide +kernel) (ne_amb _ (by decide +kernel))
+    (by decide +kernel) (by decide +kernel)
   revert this
   decide +kernel
 
@@ -252,8 +249,8 @@ theorem C07_mse_server_full_refuted : ¬ C07_mse_server_full := by
 /-! ### non-vacuity: honest streams are determinate -/
 
 set_option maxRecDepth 100000 in
-example : Determinate (server repaired witnessCrypto wOpts [] [] [(wHash, wId)]) [wStream] :=
-  ne_amb _ (by decide +kernel)
+example : Determinate (server repaired witnessCrypto wOpts [] [] [(wHash, wId)]) [wStream] := by
+  decide +kernel
 
 /-! ### delivered exactly once -/
 
@@ -430,5 +427,585 @@ theorem C07_agree_plain (v : Variant) (cr : MseCrypto) (oc os : Options) (x pad 
 -- non-vacuity of the agreement hypotheses
 example : findHash wHash [(wHash, wId)] = .found (wHash, wId) := by
   simp [findHash, wHash]
+
+/-! ### plain handshake: general flat runs -/
+
+theorem plainClient_flat (v : Variant) (o : Options) (ih idc ih' ids r early : Bytes) (s : List Bytes)
+    (hih : ih'.length = 20) (hids : ids.length = 20) (hr : r.length = 8)
+    (hpol : (v.policy && o.forceE) = false)
+    (hs : s.headD [] ++ s.tail.headD [] = hsWith r ih' ids ++ early) :
+    spec (plainClient v o ih idc) s
+      = if ih' = ih then
+          .ok { hash := ih, id := ids, dht := capDht r, fast := capFast r, ext := capExt r, rc4 := false }
+            ⟨early, s.tail.tail, [handshakeMsg ih idc]⟩
+        else .err .unexpectedInfoHash [handshakeMsg ih idc] := by
+  unfold spec plainClient
+  simp only [hpol, Bool.false_eq_true, if_false]
+  rw [runF_write]
+  simp only [startF, hs]
+  rw [clientTail_flat ih ih' ids r early false _ _ hih hids hr]
+  simp only [List.nil_append]
+
+theorem plainServer_flat (v : Variant) (cr : MseCrypto) (o : Options) (x pad : Bytes)
+    (hashes : List (Bytes × Bytes)) (r ih idc early : Bytes) (s : List Bytes)
+    (hih : ih.length = 20) (hidc : idc.length = 20) (hr : r.length = 8)
+    (hpol : (o.forceCH || (v.policy && o.forceE)) = false)
+    (hs : s.headD [] = hsWith r ih idc ++ early) :
+    spec (server v cr o x pad hashes) s
+      = match findHash ih hashes with
+        | .panic => .err .panic []
+        | .notFound => .err .unknownTorrent []
+        | .found h =>
+          .ok { hash := ih, id := idc, dht := capDht r, fast := capFast r, ext := capExt r, rc4 := false }
+            ⟨early ++ s.tail.headD [], s.tail.tail, [handshakeMsg ih h.2]⟩ := by
+  have hlen : (hsWith r ih idc).length = 68 := hsWith_length _ _ _ hr hih hidc
+  have hsplit : hsWith r ih idc ++ early = header ++ (r ++ ih ++ idc ++ early) := by
+    simp only [hsWith, List.append_assoc]
+  unfold spec server
+  rw [runF_peek _ _ _ _ _ (by simp only [startF, hs, List.length_append, hlen]; omega)]
+  simp only [startF, hs, hsplit, take_app _ _ _ header_len]
+  unfold serverK
+  simp only [if_true, hpol, Bool.false_eq_true, if_false]
+  rw [runF_take _ _ _ _ _ (by simp only [List.length_append, header_len]; omega)]
+  simp only [drop_app _ _ _ header_len]
+  rw [serverTail_flat hashes none false id r ih idc early _ _ (Or.inl rfl) hih hidc hr]
+  cases findHash ih hashes <;> simp [id]
+
+theorem ok_determinate (p : Prog HsResult) (s : List Bytes) (a : HsResult) (st : StF)
+    (h : spec p s = .ok a st) : Determinate p s := by
+  unfold Determinate; rw [h]; rfl
+
+theorem err_determinate (p : Prog HsResult) (s : List Bytes) (e : HsErr) (out : List Bytes)
+    (h : spec p s = .err e out) : Determinate p s := by
+  unfold Determinate; rw [h]; rfl
+
+/-- **Reserved bits** (plain handshake, both directions, any segmentation): each end reports
+    exactly the Dht/Fast/Extended bits the PEER announced in its 8 reserved bytes, whatever
+    they are; since storrent announces all three itself, the capabilities common to both ends
+    (own AND peer's) are those reported. -/
+theorem C07_plain_reserved (v : Variant) (cr : MseCrypto) (oc os : Options) (x pad : Bytes)
+    (hashes : List (Bytes × Bytes)) (ih idc ids rC rS earlyC earlyS : Bytes) (cc cs : Conn)
+    (hih : ih.length = 20) (hidc : idc.length = 20) (hids : ids.length = 20)
+    (hrC : rC.length = 8) (hrS : rS.length = 8)
+    (hfind : findHash ih hashes = .found (ih, ids))
+    (hpc : (v.policy && oc.forceE) = false)
+    (hps : (os.forceCH || (v.policy && os.forceE)) = false)
+    (hcs : (flat cs).headD [] = hsWith rC ih idc ++ earlyC)
+    (hcc : (flat cc).headD [] ++ (flat cc).tail.headD [] = hsWith rS ih ids ++ earlyS) :
+    exec (plainClient v oc ih idc) cc
+      = .ok { hash := ih, id := ids, dht := capDht rS, fast := capFast rS, ext := capExt rS, rc4 := false }
+          ⟨earlyS, (flat cc).tail.tail, [handshakeMsg ih idc]⟩ ∧
+    exec (server v cr os x pad hashes) cs
+      = .ok { hash := ih, id := idc, dht := capDht rC, fast := capFast rC, ext := capExt rC, rc4 := false }
+          ⟨earlyC ++ (flat cs).tail.headD [], (flat cs).tail.tail, [handshakeMsg ih ids]⟩ ∧
+    (capDht reserved && capDht rS) = capDht rS ∧ (capFast reserved && capFast rS) = capFast rS ∧
+    (capExt reserved && capExt rS) = capExt rS := by
+  have h1 := plainClient_flat v oc ih idc ih ids rS earlyS (flat cc) hih hids hrS hpc hcc
+  simp only [if_true] at h1
+  have h2 := plainServer_flat v cr os x pad hashes rC ih idc earlyC (flat cs) hih hidc hrC hps hcs
+  simp only [hfind] at h2
+  refine ⟨?_, ?_, ?_⟩
+  · rw [C07_refines_flat _ _ (ok_determinate _ _ _ _ h1), h1]
+  · rw [C07_refines_flat _ _ (ok_determinate _ _ _ _ h2), h2]
+  · have : capDht reserved = true ∧ capFast reserved = true ∧ capExt reserved = true := by decide
+    simp [this.1, this.2.1, this.2.2]
+
+/-- **Info-hash mismatch ⇒ both refuse** (plain handshake, any segmentation).
+    (a) the server does not have the torrent the client asks for: it fails with
+    ErrUnknownTorrent having written nothing; (b) a client that receives nothing before the
+    connection is closed fails with EOF; (c) a client that receives a handshake for another
+    info-hash fails with "unexpected infoHash". -/
+theorem C07_plain_hash_mismatch (v : Variant) (cr : MseCrypto) (oc os : Options) (x pad : Bytes)
+    (hashes : List (Bytes × Bytes)) (ih ih' idc ids rC rS earlyC earlyS : Bytes) (cc cc' cs : Conn)
+    (hih : ih.length = 20) (hih' : ih'.length = 20) (hidc : idc.length = 20) (hids : ids.length = 20)
+    (hrC : rC.length = 8) (hrS : rS.length = 8)
+    (hnot : findHash ih hashes = .notFound) (hne : ih' ≠ ih)
+    (hpc : (v.policy && oc.forceE) = false)
+    (hps : (os.forceCH || (v.policy && os.forceE)) = false)
+    (hcs : (flat cs).headD [] = hsWith rC ih idc ++ earlyC)
+    (hcc : flat cc = [[], []])
+    (hcc' : (flat cc').headD [] ++ (flat cc').tail.headD [] = hsWith rS ih' ids ++ earlyS) :
+    exec (server v cr os x pad hashes) cs = .err .unknownTorrent [] ∧
+    exec (plainClient v oc ih idc) cc = .err .eof [handshakeMsg ih idc] ∧
+    exec (plainClient v oc ih idc) cc' = .err .unexpectedInfoHash [handshakeMsg ih idc] := by
+  have h1 := plainServer_flat v cr os x pad hashes rC ih idc earlyC (flat cs) hih hidc hrC hps hcs
+  simp only [hnot] at h1
+  have h3 := plainClient_flat v oc ih idc ih' ids rS earlyS (flat cc') hih' hids hrS hpc hcc'
+  simp only [hne, if_false] at h3
+  have h2 : spec (plainClient v oc ih idc) (flat cc) = .err .eof [handshakeMsg ih idc] := by
+    unfold spec plainClient
+    simp only [hpc, Bool.false_eq_true, if_false, hcc]
+    rw [runF_write]
+    unfold clientTail
+    conv => lhs; unfold runF
+    simp [startF, eofOrStall]
+  refine ⟨?_, ?_, ?_⟩
+  · rw [C07_refines_flat _ _ (err_determinate _ _ _ _ h1), h1]
+  · rw [C07_refines_flat _ _ (err_determinate _ _ _ _ h2), h2]
+  · rw [C07_refines_flat _ _ (err_determinate _ _ _ _ h3), h3]
+
+/-- **Self-connection** (plain handshake): a client that reaches its own listener (the
+    server's id for the torrent is the client's own id) completes the handshake on both ends,
+    and both ends report their OWN peer id — which is what lets the caller recognise and drop
+    the connection (`result.Id` = `t.MyId`). -/
+theorem C07_self_connection (v : Variant) (cr : MseCrypto) (oc os : Options) (x pad : Bytes)
+    (hashes : List (Bytes × Bytes)) (ih myid earlyC earlyS : Bytes) (cc cs : Conn)
+    (hih : ih.length = 20) (hid : myid.length = 20)
+    (hfind : findHash ih hashes = .found (ih, myid))
+    (hpc : (v.policy && oc.forceE) = false)
+    (hps : (os.forceCH || (v.policy && os.forceE)) = false)
+    (hcs : (flat cs).headD [] = handshakeMsg ih myid ++ earlyC)
+    (hcc : (flat cc).headD [] ++ (flat cc).tail.headD [] = handshakeMsg ih myid ++ earlyS) :
+    ∃ stC stS a b, exec (plainClient v oc ih myid) cc = .ok a stC ∧
+      exec (server v cr os x pad hashes) cs = .ok b stS ∧ a.id = myid ∧ b.id = myid ∧ a.hash = b.hash := by
+  obtain ⟨h1, h2⟩ := C07_agree_plain v cr oc os x pad hashes ih myid myid earlyC earlyS cc cs hih hid hid
+    hfind hpc hps hcs hcc
+  exact ⟨_, _, _, _, h1, h2, rfl, rfl, rfl⟩
+
+
+/-! ### agreement (MSE handshake) -/
+
+/-- the only facts about the primitives the agreement needs -/
+structure MseAlgebra (cr : MseCrypto) (xa xb : Bytes) : Prop where
+  pubA : (cr.pub xa).length = 96
+  pubB : (cr.pub xb).length = 96
+  trivA : cr.trivial (cr.pub xa) = false
+  trivB : cr.trivial (cr.pub xb) = false
+  /-- Ya is not mistaken for a BitTorrent header by protocol.ServerHandshake -/
+  notHeader : (cr.pub xa).take 20 ≠ header
+  hashLen : ∀ b, (cr.hash b).length = 20
+  /-- Diffie-Hellman: both ends compute the same secret -/
+  dh : cr.dh xa (cr.pub xb) = cr.dh xb (cr.pub xa)
+
+/-- `bytes.Index(pad ++ rest, v)` is `len(pad)`: the marker `synchronise` looks for does not
+    occur earlier (inside the random padding or straddling its end) -/
+def MarkerFirst (v pad rest : Bytes) : Prop := findSub v (pad ++ rest) = some pad.length
+
+instance (v pad rest : Bytes) : Decidable (MarkerFirst v pad rest) := by
+  unfold MarkerFirst; infer_instance
+
+/-- the client accepts whatever an honest server selects from its offer -/
+theorem select_accepted (oc os : Options) :
+    (serverSelect os (cryptoProvide oc) = 1 → oc.forceE = false) ∧
+    (serverSelect os (cryptoProvide oc) = 2 → oc.allowE = true) := by
+  obtain ⟨a1, a2, a3, a4, a5, a6⟩ := oc
+  obtain ⟨b1, b2, b3, b4, b5, b6⟩ := os
+  revert a1 a2 a3 a4 a5 a6 b1 b2 b3 b4 b5 b6
+  decide
+
+theorem provide_small (o : Options) : cryptoProvide o < 256 ∧ (cryptoProvide o ≠ 0 → cryptoProvide o % 4 ≠ 0) := by
+  obtain ⟨a1, a2, a3, a4, a5, a6⟩ := o
+  revert a1 a2 a3 a4 a5 a6
+  decide
+
+/-- **Agreement (MSE handshake).**  The model's client (protocol.ClientHandshake with the
+    crypto handshake) and server (protocol.ServerHandshake) run against each other: `cs` is
+    the pipe the server reads — it carries exactly what the client writes (Ya ++ PadA, then
+    message 3 with IA = the BitTorrent handshake) followed by the client's payload — and `cc`
+    the pipe the client reads (Yb ++ PadB, then message 4, the server's BitTorrent handshake
+    and payload); payload is encrypted by the negotiated method, the client's from keystream
+    position 16 + 68 of keyA, the server's from position 14 of keyB.  DH, SHA-1 and RC4 are
+    ARBITRARY functions satisfying `MseAlgebra` (RC4 = XOR with a keystream determined by the
+    key, so equal keys and equal positions decrypt what was encrypted).  Then for EVERY
+    segmentation of both pipes:
+    both ends finish; both report the method `serverSelect os (cryptoProvide oc)`; the
+    keystreams match (client-encrypt = server-decrypt, server-encrypt = client-decrypt); the
+    server finds the skey the client used and both report that info-hash; each reports the
+    other's peer id and capability bits; IA is delivered exactly (the server's `init ++ rest`
+    is the client's payload: nothing of IA is lost or duplicated); each end's first payload
+    byte is decrypted at the right keystream offset (`rest` = the plaintext payload); and what
+    each end wrote is exactly what the other pipe carries. -/
+theorem C07_agree_mse (v : Variant) (cr : MseCrypto) (oc os : Options) (xa padA xb padB : Bytes)
+    (hashes : List (Bytes × Bytes)) (ih idc ids earlyC earlyS : Bytes) (cc cs : Conn)
+    (alg : MseAlgebra cr xa xb)
+    (hih : ih.length = 20) (hidc : idc.length = 20) (hids : ids.length = 20)
+    (hfind : findHash ih hashes = .found (ih, ids))
+    (hskey : findSkey cr (cr.req2 ih) (hashes.map (·.1)) = some ih)
+    (hac : oc.allowCH = true) (has : os.allowCH = true)
+    (hprov : cryptoProvide oc ≠ 0) (hsel : serverSelect os (cryptoProvide oc) ≠ 0)
+    (hpA : padA.length ≤ 512) (hpB : padB.length ≤ 512)
+    (hmA : MarkerFirst (cr.req1 (cr.dh xa (cr.pub xb))) padA
+      (msg3 cr (cr.dh xa (cr.pub xb)) ih (cryptoProvide oc) (handshakeMsg ih idc)))
+    (hmB : MarkerFirst (xorAt (ksB cr (cr.dh xa (cr.pub xb)) ih) 0 vc) padB
+      (msg4 cr (cr.dh xa (cr.pub xb)) ih (serverSelect os (cryptoProvide oc)) ++
+        encSel (ksB cr (cr.dh xa (cr.pub xb)) ih) 14 (serverSelect os (cryptoProvide oc))
+          (handshakeMsg ih ids ++ earlyS)))
+    (hcs : flat cs = [cr.pub xa ++ padA,
+      msg3 cr (cr.dh xa (cr.pub xb)) ih (cryptoProvide oc) (handshakeMsg ih idc),
+      encSel (ksA cr (cr.dh xa (cr.pub xb)) ih) 84 (serverSelect os (cryptoProvide oc)) earlyC])
+    (hcc : flat cc = [[], cr.pub xb ++ padB,
+      msg4 cr (cr.dh xa (cr.pub xb)) ih (serverSelect os (cryptoProvide oc)) ++
+        encSel (ksB cr (cr.dh xa (cr.pub xb)) ih) 14 (serverSelect os (cryptoProvide oc))
+          (handshakeMsg ih ids ++ earlyS)]) :
+    exec (cryptoClient cr oc xa padA ih idc) cc
+      = .ok { hash := ih, id := ids, dht := true, fast := true, ext := true,
+              rc4 := decide (serverSelect os (cryptoProvide oc) = 2) }
+          ⟨earlyS, [], [cr.pub xa ++ padA,
+            msg3 cr (cr.dh xa (cr.pub xb)) ih (cryptoProvide oc) (handshakeMsg ih idc)]⟩ ∧
+    exec (server v cr os xb padB hashes) cs
+      = .ok { hash := ih, id := idc, dht := true, fast := true, ext := true,
+              rc4 := decide (serverSelect os (cryptoProvide oc) = 2) }
+          ⟨earlyC, [], [cr.pub xb ++ padB,
+            msg4 cr (cr.dh xa (cr.pub xb)) ih (serverSelect os (cryptoProvide oc)),
+            encSel (ksB cr (cr.dh xa (cr.pub xb)) ih) 14 (serverSelect os (cryptoProvide oc))
+              (handshakeMsg ih ids)]⟩ ∧
+    ksA cr (cr.dh xa (cr.pub xb)) ih = ksA cr (cr.dh xb (cr.pub xa)) ih ∧
+    ksB cr (cr.dh xa (cr.pub xb)) ih = ksB cr (cr.dh xb (cr.pub xa)) ih := by
+  have hs12 : serverSelect os (cryptoProvide oc) = 1 ∨ serverSelect os (cryptoProvide oc) = 2 := by
+    rcases serverSelect_cases os (cryptoProvide oc) with h | h | h
+    · exact absurd h hsel
+    · exact Or.inl h
+    · exact Or.inr h
+  obtain ⟨hc1, hc2⟩ := select_accepted oc os
+  obtain ⟨hp256, hp4⟩ := provide_small oc
+  have hC := cryptoClient_flat cr oc xa padA ih idc (cr.pub xb) padB ids earlyS _ hac alg.pubB alg.trivB hprov
+    hmB hpB hih hids hs12 hc1 hc2
+  have hdh := alg.dh
+  unfold MarkerFirst at hmA
+  have hS := serverMse_flat v cr os xb padB hashes (cr.pub xa) padA ih idc ids earlyC _ has alg.pubA alg.trivA
+    alg.notHeader alg.hashLen (hdh ▸ hmA) hpA hskey hfind hih hidc hp256 (hp4 hprov) hsel
+  rw [← hdh] at hS
+  have hEC := congrArg (spec (cryptoClient cr oc xa padA ih idc)) hcc
+  have hES := congrArg (spec (server v cr os xb padB hashes)) hcs
+  simp only [spec, startF, List.headD_cons, List.tail_cons] at hEC hES
+  rw [hC] at hEC
+  rw [hS] at hES
+  refine ⟨?_, ?_, by rw [alg.dh], by rw [alg.dh]⟩
+  · rw [C07_refines_flat _ _ (ok_determinate _ _ _ _ hEC)]; exact hEC
+  · rw [C07_refines_flat _ _ (ok_determinate _ _ _ _ hES)]; exact hES
+
+
+
+/-! ### determinacy discharged for honest peers -/
+
+/-- **MSE server, honest client, no determinacy hypothesis.**  For the stream of a client that
+    follows the specification (PadA ≤ 512, the marker not occurring earlier in the padding,
+    message 3 with IA = its BitTorrent handshake ending the epoch: nothing pipelined behind
+    IA before the server's answer) EVERY segmentation gives the same — successful — result. -/
+theorem C07_mse_server_seg_honest (v : Variant) (cr : MseCrypto) (o : Options) (x pad : Bytes)
+    (hashes : List (Bytes × Bytes)) (ya padA ih idc ids early : Bytes) (provide : Nat) (c₁ c₂ : Conn)
+    (ha : o.allowCH = true) (hya : ya.length = 96) (htriv : cr.trivial ya = false)
+    (hnh : ya.take 20 ≠ header) (hH : ∀ b, (cr.hash b).length = 20)
+    (hfirst : MarkerFirst (cr.req1 (cr.dh x ya)) padA
+      (msg3 cr (cr.dh x ya) ih provide (handshakeMsg ih idc)))
+    (hpad : padA.length ≤ 512)
+    (hskey : findSkey cr (cr.req2 ih) (hashes.map (·.1)) = some ih)
+    (hfind : findHash ih hashes = .found (ih, ids))
+    (hih : ih.length = 20) (hidc : idc.length = 20)
+    (hprov : provide < 256) (hprov4 : provide % 4 ≠ 0) (hsel : serverSelect o provide ≠ 0)
+    (h₁ : flat c₁ = [ya ++ padA, msg3 cr (cr.dh x ya) ih provide (handshakeMsg ih idc),
+      encSel (ksA cr (cr.dh x ya) ih) 84 (serverSelect o provide) early])
+    (h₂ : flat c₂ = flat c₁) :
+    exec (server v cr o x pad hashes) c₁ = exec (server v cr o x pad hashes) c₂ ∧
+    Determinate (server v cr o x pad hashes) (flat c₁) := by
+  have hS := serverMse_flat v cr o x pad hashes ya padA ih idc ids early provide ha hya htriv hnh hH hfirst
+    hpad hskey hfind hih hidc hprov hprov4 hsel
+  have hE := congrArg (spec (server v cr o x pad hashes)) h₁
+  simp only [spec, startF, List.headD_cons, List.tail_cons] at hE
+  rw [hS] at hE
+  have hd := ok_determinate _ _ _ _ hE
+  exact ⟨C07_seg_independent _ c₁ c₂ h₂.symm hd, hd⟩
+
+/-- **MSE client, honest server, no determinacy hypothesis.** -/
+theorem C07_mse_client_seg_honest (cr : MseCrypto) (o : Options) (x pad ih idc : Bytes)
+    (yb padB ids early : Bytes) (select : Nat) (c₁ c₂ : Conn)
+    (ha : o.allowCH = true) (hyb : yb.length = 96) (htriv : cr.trivial yb = false)
+    (hprov : cryptoProvide o ≠ 0)
+    (hfirst : MarkerFirst (xorAt (ksB cr (cr.dh x yb) ih) 0 vc) padB
+      (msg4 cr (cr.dh x yb) ih select ++
+        encSel (ksB cr (cr.dh x yb) ih) 14 select (handshakeMsg ih ids ++ early)))
+    (hpad : padB.length ≤ 512) (hih : ih.length = 20) (hids : ids.length = 20)
+    (hs12 : select = 1 ∨ select = 2)
+    (hc1 : select = 1 → o.forceE = false) (hc2 : select = 2 → o.allowE = true)
+    (h₁ : flat c₁ = [[], yb ++ padB, msg4 cr (cr.dh x yb) ih select ++
+      encSel (ksB cr (cr.dh x yb) ih) 14 select (handshakeMsg ih ids ++ early)])
+    (h₂ : flat c₂ = flat c₁) :
+    exec (cryptoClient cr o x pad ih idc) c₁ = exec (cryptoClient cr o x pad ih idc) c₂ ∧
+    Determinate (cryptoClient cr o x pad ih idc) (flat c₁) := by
+  have hC := cryptoClient_flat cr o x pad ih idc yb padB ids early select ha hyb htriv hprov hfirst hpad
+    hih hids hs12 hc1 hc2
+  have hE := congrArg (spec (cryptoClient cr o x pad ih idc)) h₁
+  simp only [spec, startF, List.headD_cons, List.tail_cons] at hE
+  rw [hC] at hE
+  have hd := ok_determinate _ _ _ _ hE
+  exact ⟨C07_seg_independent _ c₁ c₂ h₂.symm hd, hd⟩
+
+/-! ### the determinacy hypothesis reduced: spec-conforming padding suffices -/
+
+/-- the flat result is ambiguous for the reason `w` -/
+def ambFor {α : Type} (w : Amb) : ResF α → Bool
+  | .ambiguous w' => w == w'
+  | _ => false
+
+theorem isAmb_split {α : Type} (r : ResF α) :
+    r.isAmb = false ↔ ambFor .marker r = false ∧ ambFor .pipelined r = false := by
+  cases r with
+  | ok a st => simp [ResF.isAmb, ambFor]
+  | err e o => simp [ResF.isAmb, ambFor]
+  | ambiguous w => cases w <;> simp [ResF.isAmb, ambFor]
+
+/-- programs without `synchronise` -/
+inductive NoSync {α : Type} : Prog α → Prop where
+  | ret (a : α) : NoSync (.ret a)
+  | fail (e : HsErr) : NoSync (.fail e)
+  | peek (rm n m) (k : Bytes → Prog α) (h : ∀ b, NoSync (k b)) : NoSync (.peek rm n m k)
+  | take (rm n m) (k : Bytes → Prog α) (h : ∀ b, NoSync (k b)) : NoSync (.take rm n m k)
+  | ifEmpty (y n : Prog α) (hy : NoSync y) (hn : NoSync n) : NoSync (.ifEmpty y n)
+  | xorAll (ks) (k : Prog α) (h : NoSync k) : NoSync (.xorAll ks k)
+  | unread (b) (k : Prog α) (h : NoSync k) : NoSync (.unread b k)
+  | write (b) (k : Prog α) (h : NoSync k) : NoSync (.write b k)
+
+theorem runF_noSync {α : Type} (p : Prog α) (h : NoSync p) (st : StF) :
+    ambFor .marker (runF p st) = false := by
+  induction h generalizing st with
+  | ret a => simp [runF, ambFor]
+  | fail e => simp [runF, ambFor]
+  | peek rm n m k _ ih => unfold runF; split; exact ih _ _; simp [ambFor]
+  | take rm n m k _ ih => unfold runF; split; exact ih _ _; simp [ambFor]
+  | ifEmpty y n _ _ ihy _ => unfold runF; split; exact ihy _; simp [ambFor]
+  | xorAll ks k _ ih => unfold runF; exact ih _
+  | unread b k _ ih => unfold runF; exact ih _
+  | write b k _ ih => unfold runF; exact ih _
+
+theorem noSync_of_noAmb {α : Type} (p : Prog α) (h : NoAmb p) : NoSync p := by
+  induction h with
+  | ret a => exact .ret a
+  | fail e => exact .fail e
+  | peek rm n m k _ ih => exact .peek _ _ _ _ ih
+  | take rm n m k _ ih => exact .take _ _ _ _ ih
+  | xorAll ks k _ ih => exact .xorAll _ _ ih
+  | unread b k _ ih => exact .unread _ _ ih
+  | write b k _ ih => exact .write _ _ ih
+
+/-- crypto.ServerHandshake: the only `synchronise` is the search for HASH('req1', S); if its
+    first occurrence (if any) in what has arrived by then lies within the searched window,
+    the run is never ambiguous because of a marker -/
+theorem mseServer_marker {α : Type} (cr : MseCrypto) (o : Options) (x pad : Bytes) (skeys : List Bytes)
+    (k : Bool → Bytes → (Bytes → Bytes) → Prog α) (hk : ∀ a b c, NoSync (k a b c)) (st : StF)
+    (hwin : ∀ i, findSub (cr.req1 (cr.dh x (st.rest.take 96))) (st.rest.drop 96 ++ st.later.headD []) = some i →
+      i + (cr.req1 (cr.dh x (st.rest.take 96))).length ≤ 612) :
+    ambFor .marker (runF (mseServer cr o x pad skeys k) st) = false := by
+  unfold mseServer
+  split
+  · simp [runF, ambFor]
+  · unfold runF
+    split
+    · dsimp only
+      split
+      · simp [runF, ambFor]
+      · rw [runF_write]
+        conv => lhs; arg 2; unfold runF
+        simp only
+        cases hf : findSub (cr.req1 (cr.dh x (st.rest.take 96))) (st.rest.drop 96 ++ st.later.headD []) with
+        | some i =>
+          simp only [hwin i hf, if_true]
+          apply runF_noSync
+          repeat' (first
+            | exact NoSync.fail _
+            | exact hk _ _ _
+            | (apply NoSync.take; intro _)
+            | apply NoSync.write
+            | apply NoSync.unread
+            | apply NoSync.xorAll
+            | apply NoSync.ifEmpty
+            | (dsimp only; split)
+            | split)
+        | none =>
+          simp only
+          split <;> simp [ambFor]
+    · simp [ambFor]
+
+theorem serverCont_noSync (hashes : List (Bytes × Bytes)) (rc4 : Bool) (skey : Bytes) (enc : Bytes → Bytes) :
+    NoSync (Prog.take RM.proto 20 68 fun b2 =>
+      if b2 ≠ header then Prog.fail HsErr.badHandshake else serverTail hashes (some skey) rc4 enc) := by
+  refine .take _ _ _ _ (fun b2 => ?_)
+  split
+  · exact .fail _
+  · exact noSync_of_noAmb _ (serverTail_noAmb _ _ _ _)
+
+/-- protocol.ServerHandshake is never ambiguous because of the marker when the first
+    occurrence of HASH('req1', S) — if any — in what has arrived when the server searches
+    (the rest of epoch 0 behind Ya and epoch 1) ends within the first 612 bytes -/
+theorem server_marker (v : Variant) (cr : MseCrypto) (o : Options) (x pad : Bytes)
+    (hashes : List (Bytes × Bytes)) (s : List Bytes)
+    (hwin : ∀ i, findSub (cr.req1 (cr.dh x ((s.headD []).take 96)))
+        ((s.headD []).drop 96 ++ s.tail.headD []) = some i →
+      i + (cr.req1 (cr.dh x ((s.headD []).take 96))).length ≤ 612) :
+    ambFor .marker (spec (server v cr o x pad hashes) s) = false := by
+  unfold spec server
+  unfold runF
+  split
+  · unfold serverK
+    split
+    · split
+      · simp [runF, ambFor]
+      · exact runF_noSync _ (noSync_of_noAmb _ (.take _ _ _ _ (fun _ => serverTail_noAmb _ _ _ _))) _
+    · split
+      · exact mseServer_marker cr o x pad _ _ (fun _ _ _ => serverCont_noSync _ _ _ _) _ hwin
+      · simp [runF, ambFor]
+  · simp [ambFor]
+
+/-- a marker that does occur `pre.length` bytes in is found at or before that offset, hence
+    within the window whenever `pre.length + v.length` fits -/
+theorem window_of_occurs (v pre post : Bytes) (n : Nat) (h : pre.length + v.length ≤ n) :
+    ∀ i, findSub v (pre ++ v ++ post) = some i → i + v.length ≤ n := by
+  intro i hi
+  obtain ⟨j, hj, hle⟩ := findSub_le_of_occurs v pre post
+  rw [hj] at hi
+  cases hi
+  omega
+
+/-- **MSE server, the determinacy hypothesis reduced to the recorded finding.**  Whatever the
+    client sends (valid or not, any IA, any payload), as long as its padding obeys the
+    specification — HASH('req1', S) occurs in what has arrived when the server searches, at
+    most 592 bytes behind Ya (PadA ≤ 512 leaves 80 bytes to spare; `pre` need not be free of
+    an earlier accidental occurrence) — two segmentations of the same streams give the same
+    result unless bytes are pipelined behind IA inside the same epoch (`Amb.pipelined`). -/
+theorem C07_mse_server_seg_window (v : Variant) (cr : MseCrypto) (o : Options) (x pad : Bytes)
+    (hashes : List (Bytes × Bytes)) (c₁ c₂ : Conn) (hs : flat c₁ = flat c₂)
+    (pre post : Bytes)
+    (hocc : ((flat c₁).headD []).drop 96 ++ (flat c₁).tail.headD []
+      = pre ++ cr.req1 (cr.dh x (((flat c₁).headD []).take 96)) ++ post)
+    (hpre : pre.length + (cr.req1 (cr.dh x (((flat c₁).headD []).take 96))).length ≤ 612)
+    (hpipe : ambFor .pipelined (spec (server v cr o x pad hashes) (flat c₁)) = false) :
+    exec (server v cr o x pad hashes) c₁ = exec (server v cr o x pad hashes) c₂ := by
+  apply C07_seg_independent _ c₁ c₂ hs
+  unfold Determinate
+  rw [isAmb_split]
+  refine ⟨server_marker v cr o x pad hashes _ ?_, hpipe⟩
+  rw [hocc]
+  exact window_of_occurs _ pre post 612 hpre
+
+/-- crypto.ClientHandshake has no `len(buf) > 0` test: the only possible ambiguity is the
+    search for ENCRYPT(VC) -/
+theorem mseClient_determinate {α : Type} (cr : MseCrypto) (o : Options) (x pad skey ia : Bytes)
+    (k : Bool → Prog α) (hk : ∀ b, NoAmb (k b)) (st : StF)
+    (hwin : ∀ i,
+      findSub (xorAt (ksB cr (cr.dh x ((st.rest ++ st.later.headD []).take 96)) skey) 0 vc)
+        ((st.rest ++ st.later.headD []).drop 96 ++ st.later.tail.headD []) = some i →
+      i + (xorAt (ksB cr (cr.dh x ((st.rest ++ st.later.headD []).take 96)) skey) 0 vc).length ≤ 520) :
+    (runF (mseClient cr o x pad skey ia k) st).isAmb = false := by
+  unfold mseClient
+  split
+  · simp [runF, ResF.isAmb]
+  · rw [runF_write]
+    unfold runF
+    split
+    · dsimp only
+      split
+      · simp [runF, ResF.isAmb]
+      · split
+        · simp [runF, ResF.isAmb]
+        · rw [runF_write]
+          conv => lhs; arg 1; unfold runF
+          simp only [ksB] at hwin ⊢
+          cases hf : findSub (xorAt (discard1024 (cr.table "keyB" (cr.dh x ((st.rest ++ st.later.headD []).take 96)) skey)) 0 vc)
+              ((st.rest ++ st.later.headD []).drop 96 ++ st.later.tail.headD []) with
+          | some i =>
+            simp only [hwin i hf, if_true]
+            apply runF_noAmb
+            repeat' (first
+              | exact NoAmb.fail _
+              | exact hk _
+              | (apply NoAmb.take; intro _)
+              | apply NoAmb.xorAll
+              | (dsimp only; split)
+              | split)
+          | none =>
+            simp only
+            split <;> simp [ResF.isAmb]
+    · simp [ResF.isAmb]
+
+/-- **MSE client, no determinacy hypothesis left**: whatever the server sends (valid or not),
+    as long as its padding obeys the specification — ENCRYPT(VC) occurs in what has arrived
+    when the client searches, at most 512 bytes behind Yb — every segmentation of the same
+    streams gives the same result. -/
+theorem C07_mse_client_seg_window (cr : MseCrypto) (o : Options) (x pad ih idc : Bytes)
+    (c₁ c₂ : Conn) (hs : flat c₁ = flat c₂) (pre post : Bytes)
+    (hocc : (((flat c₁).headD [] ++ (flat c₁).tail.headD []).drop 96) ++ (flat c₁).tail.tail.headD []
+      = pre ++ xorAt (ksB cr (cr.dh x (((flat c₁).headD [] ++ (flat c₁).tail.headD []).take 96)) ih) 0 vc ++ post)
+    (hpre : pre.length ≤ 512) :
+    exec (cryptoClient cr o x pad ih idc) c₁ = exec (cryptoClient cr o x pad ih idc) c₂ := by
+  apply C07_seg_independent _ c₁ c₂ hs
+  unfold Determinate spec cryptoClient
+  apply mseClient_determinate cr o x pad ih _ _ (fun b => clientTail_noAmb _ _)
+  simp only [startF]
+  rw [hocc]
+  apply window_of_occurs
+  rw [xorAt_length, vc_length]
+  omega
+
+set_option maxRecDepth 100000 in
+-- non-vacuity: the honest witness stream is not `pipelined`; the stream of
+-- `C07_mse_server_full_refuted` (one byte glued behind IA) is exactly that
+example : ambFor .pipelined (spec (server repaired witnessCrypto wOpts [] [] [(wHash, wId)]) [wStream]) = false ∧
+    ambFor .pipelined (spec (server repaired witnessCrypto wOpts [] [] [(wHash, wId)]) [wStream ++ [5]]) = true := by
+  decide +kernel
+
+/-! ### non-vacuity of `C07_agree_mse` with the real SHA-1 / RC4 / modexp of Model/MseCrypto -/
+
+theorem fillBytes_length (n v : Nat) : (MseCrypto.fillBytes n v).length = n := by
+  induction n generalizing v with
+  | zero => rfl
+  | succ n ih => simp [MseCrypto.fillBytes, ih]
+
+theorem sha1_length (msg : Bytes) : (MseCrypto.sha1 msg).length = 20 := by
+  simp [MseCrypto.sha1, MseCrypto.w32, be32]
+
+/-- with an empty pad the marker is trivially first -/
+theorem markerFirst_nil (v rest : Bytes) : MarkerFirst v [] (v ++ rest) := by
+  unfold MarkerFirst
+  obtain ⟨i, hi, hle⟩ := findSub_le_of_occurs v [] rest
+  simp only [List.nil_append, List.length_nil, Nat.le_zero_eq] at hi hle ⊢
+  rw [hi, hle]
+
+def realCr : MseCrypto := MseCrypto.real 4096
+def xa0 : Bytes := [1, 2, 3]
+def xb0 : Bytes := [4, 5, 6]
+def ih0 : Bytes := List.replicate 20 7
+def idc0 : Bytes := List.replicate 20 1
+def ids0 : Bytes := List.replicate 20 2
+
+set_option maxRecDepth 100000 in
+/-- the real primitives satisfy the algebraic facts (Diffie-Hellman by kernel evaluation of
+    the two 768-bit modular exponentiations for these secrets) -/
+theorem realAlgebra : MseAlgebra realCr xa0 xb0 where
+  pubA := fillBytes_length _ _
+  pubB := fillBytes_length _ _
+  trivA := by decide +kernel
+  trivB := by decide +kernel
+  notHeader := by decide +kernel
+  hashLen := sha1_length
+  dh := by decide +kernel
+
+/-- both ends prefer encryption: RC4 is negotiated, the whole conclusion of `C07_agree_mse`
+    holds for the real cryptography, one-byte-per-chunk or any other segmentation -/
+example (cc cs : Conn) (earlyC earlyS : Bytes)
+    (hcs : flat cs = [realCr.pub xa0 ++ [],
+      msg3 realCr (realCr.dh xa0 (realCr.pub xb0)) ih0 3 (handshakeMsg ih0 idc0),
+      encSel (ksA realCr (realCr.dh xa0 (realCr.pub xb0)) ih0) 84 2 earlyC])
+    (hcc : flat cc = [[], realCr.pub xb0 ++ [],
+      msg4 realCr (realCr.dh xa0 (realCr.pub xb0)) ih0 2 ++
+        encSel (ksB realCr (realCr.dh xa0 (realCr.pub xb0)) ih0) 14 2 (handshakeMsg ih0 ids0 ++ earlyS)]) :
+    ∃ a b stC stS,
+      exec (cryptoClient realCr (defaultOptions true false) xa0 [] ih0 idc0) cc = .ok a stC ∧
+      exec (server repaired realCr (defaultOptions true false) xb0 [] [(ih0, ids0)]) cs = .ok b stS ∧
+      a.rc4 = true ∧ b.rc4 = true ∧ a.hash = ih0 ∧ b.hash = ih0 ∧ a.id = ids0 ∧ b.id = idc0 ∧
+      stC.rest = earlyS ∧ stS.rest = earlyC := by
+  have hp : cryptoProvide (defaultOptions true false) = 3 := by decide
+  have hs : serverSelect (defaultOptions true false) 3 = 2 := by decide
+  have h := C07_agree_mse repaired realCr (defaultOptions true false) (defaultOptions true false)
+    xa0 [] xb0 [] [(ih0, ids0)] ih0 idc0 ids0 earlyC earlyS cc cs realAlgebra
+    (by decide) (by decide) (by decide)
+    (by simp [findHash, ih0])
+    (by simp [findSkey])
+    rfl rfl (by decide) (by decide) (by decide) (by decide)
+    (by rw [hp]; unfold msg3; rw [List.append_assoc]; exact markerFirst_nil _ _)
+    (by rw [hp, hs]; unfold msg4
+        rw [List.append_assoc vc, xorAt_append, List.append_assoc]; exact markerFirst_nil _ _)
+    (by rw [hp, hs]; exact hcs) (by rw [hp, hs]; exact hcc)
+  rw [hp, hs] at h
+  exact ⟨_, _, _, _, h.1, h.2.1, rfl, rfl, rfl, rfl, rfl, rfl, rfl, rfl⟩
+
 
 end Storrent.Props.C07
